@@ -25,7 +25,7 @@
 (***************************************************************************)
 EXTENDS Integers, Sequences, FiniteSets, TLC
 
-CONSTANTS ClientScripts,    \* set of sequences over {"stop","terminate","garbage","reset"}
+CONSTANTS ClientScripts,    \* set of sequences over {"stop","restart","terminate","garbage","reset"}
           UpstreamScripts,  \* set of sequences over {"data","error","complete","drop"}
           StartFails,       \* subset of BOOLEAN: does the upstream break the connection before the reader's first write
           Forceable         \* TRUE: leave out the one step a scheduler cannot force (see LRecvResp)
@@ -68,7 +68,10 @@ HMsg == /\ hpc = "read" /\ cpos < Len(cscript)
         /\ LET m == cscript[cpos + 1] IN
            /\ cpos' = cpos + 1
            /\ act' = <<"HMsg", m>>
-           /\ CASE m = "stop" -> /\ cpc' = SpawnClose /\ inDict' = FALSE /\ hpc' = "read" /\ subEnd' = TRUE /\ UNCHANGED <<clientGone, connEnd>>
+           /\ CASE m \in {"stop", "restart"} ->
+                     \* restart = a start under the id in use: the operation running under it is stopped first
+                     \* (the new operation is another instance of this protocol, not followed here)
+                     /\ cpc' = SpawnClose /\ inDict' = FALSE /\ hpc' = "read" /\ subEnd' = TRUE /\ UNCHANGED <<clientGone, connEnd>>
                 [] m = "terminate" -> /\ cpc' = SpawnClose /\ inDict' = FALSE /\ hpc' = "exit" /\ connEnd' = TRUE /\ UNCHANGED <<clientGone, subEnd>>
                 [] m = "garbage" -> /\ hpc' = "exit" /\ connEnd' = TRUE /\ UNCHANGED <<cpc, inDict, clientGone, subEnd>>
                 [] m = "reset" -> /\ hpc' = "exit" /\ clientGone' = TRUE /\ connEnd' = TRUE /\ UNCHANGED <<cpc, inDict, subEnd>>
